@@ -241,3 +241,25 @@ class Storage:
     def __exit__(self, *exc):
         self._ex.tn = self._old
         return False
+
+
+class CaptureFd1:
+    """Captures everything written to file descriptor 1 (Python prints and C++ std::cout alike) into self.text."""
+
+    def __enter__(self):
+        import tempfile
+        sys.stdout.flush()
+        self._saved = os.dup(1)
+        self._tmp = tempfile.TemporaryFile(mode='w+b')
+        os.dup2(self._tmp.fileno(), 1)
+        self.text = ''
+        return self
+
+    def __exit__(self, *exc):
+        sys.stdout.flush()
+        os.dup2(self._saved, 1)
+        os.close(self._saved)
+        self._tmp.seek(0)
+        self.text = self._tmp.read().decode('utf-8', 'replace')
+        self._tmp.close()
+        return False
